@@ -610,13 +610,14 @@ static void keyring_gen(Rng &r, Plan &p, Tier tier, uint64_t index)
 			s = gen_load(r, true);
 		else if (k < 8) {
 			s = Step("GET");
-			s.set("idx", r.chance(3, 4) ? r.range(0, 8) : (r.chance(1, 2) ? -1 : 1000000));
+			// in range, just past the end, and values that alias small indices when truncated to 32 or 31 bits
+			s.set("idx", r.chance(2, 3) ? r.range(0, 8) : (int64_t)r.pick(std::vector<int64_t>{-1, 1000000, (1LL << 32), (1LL << 32) + 1, (1LL << 32) + 2, (1LL << 31), (1LL << 31) + 1, (1LL << 33), INT64_MIN, INT64_MIN + 1, (1LL << 16), 255, 256}));
 		} else if (k < 10) {
 			s = Step("FIND");
 			s.set("kid", (int64_t)r.below(10));
 		} else if (k < 14) {
 			s = Step("FREE");
-			s.set("pos", r.range(0, 4)); // 0 first, 1 middle, 2 last, 3 out of range (count), 4 SIZE_MAX
+			s.set("pos", r.range(0, 8)); // 0 first, 1 middle, 2 last, 3 out of range (count), 4 SIZE_MAX, 5 2^32, 6 2^32+1, 7 2^31, 8 2^63+last
 		} else if (k < 16)
 			s = Step("FREE_BAD");
 		else if (k < 17)
@@ -774,6 +775,18 @@ static void keyring_exec(Ctx &ctx)
 				break;
 			case 3:
 				idx = n;
+				break;
+			case 5:
+				idx = (size_t)1 << 32;
+				break;
+			case 6:
+				idx = ((size_t)1 << 32) + 1;
+				break;
+			case 7:
+				idx = (size_t)1 << 31;
+				break;
+			case 8:
+				idx = ((size_t)1 << 63) + (n ? n - 1 : 0);
 				break;
 			default:
 				idx = SIZE_MAX;
